@@ -355,6 +355,22 @@ pub fn judge(sc: &SchedScenario, mut x: Execution, want: &[&str]) -> SchedOutcom
     // C18 (concurrent): flag false at the quiescent end => file == memory
     let mut reopened_before: Option<Vec<Option<u64>>> = None;
     if has("C18") && !need_flush_before {
+        // nothing may be dirty in RAM (a dirty refcount slice means the file does not reflect a
+        // completed release or allocation, which no guest read shows)
+        let st = x.world.dev().verif_dump_state();
+        let dirty = st.l2_slices.iter().filter(|s| s.dirty).count()
+            + st.rb_slices.iter().filter(|s| s.dirty).count()
+            + st.l1_dirty_blocks.len()
+            + st.reftable_dirty_blocks.len();
+        if dirty != 0 {
+            out.push(viol(
+                sc,
+                &x,
+                "C18",
+                format!("flag-clear-but-dirty:{}", sig),
+                format!("need_flush_meta()==false after all operations finished, with {} dirty slices/blocks in RAM", dirty),
+            ));
+        }
         let sim2 = Sim::new(x.world.sim.borrow().files.clone());
         match open_chain(&sim2, 0, &sc.cfg, false) {
             Ok(d2) => reopened_before = Some(read_all(&d2, vsize, bs)),
